@@ -11,6 +11,7 @@ import (
 	"go/token"
 	"go/types"
 	"math/big"
+	"os"
 	"strings"
 
 	"golang.org/x/tools/go/ssa"
@@ -29,11 +30,114 @@ type guard struct {
 	// (a || b): it implies the true edge only; 2: a conjunct (a && b): its negation implies the
 	// false edge only.
 	only int8
+	// site: the condition sits in a new helper that the function under analysis calls at several
+	// places; the guard is taken once per call, with the helper's parameters standing for the
+	// arguments of that call.
+	site *ssa.Call
+	// badTrue: set by rel when the guard is matched: the failing edge is the true edge.
+	badTrue bool
+}
+
+// passedOn: the path went through the guard (during the call g.site, if any) and left it on the
+// edge that is not the failing one.
+func (g *guard) passedOn(sp *SeqPath) bool {
+	taken, known := sp.Took(g.iff, g.site)
+	return known && taken != g.badTrue
+}
+
+// refutedOn: the relation `A bad B` is excluded on the path by a comparison of the same operands
+// it went through (during the call `site`, if the comparison sits in a helper called several times).
+func (o *obCtx) refutedOn(sp *SeqPath, a, b role, bad token.Token, site *ssa.Call) bool {
+	for i := range o.gs {
+		h := &o.gs[i]
+		if h.call != nil || h.site != site || h.only != 0 {
+			if !(h.call == nil && h.site == site && h.only != 0) {
+				continue
+			}
+		}
+		if h.site != nil {
+			o.c.bindParam = nil
+			o.c.bindCall(h.site.Call.StaticCallee(), h.site)
+		}
+		op := h.op
+		switch {
+		case a(h.x) && b(h.y):
+		case a(h.y) && b(h.x):
+			op = flipOp(op)
+		default:
+			continue
+		}
+		taken, known := sp.Took(h.iff, h.site)
+		if !known {
+			continue
+		}
+		// a conjunct taken out of `ctx && cmp` is known only on the true edge, a disjunct only on the false edge
+		if ((h.only == 2 && !taken) || (h.only == 1 && taken)) && !sp.TookExact(h.iff, h.site) {
+			continue
+		}
+		if !taken {
+			op = negateOp(op)
+		}
+		switch bad {
+		case token.LSS:
+			if op == token.EQL || op == token.GTR || op == token.GEQ {
+				return true
+			}
+		case token.GTR:
+			if op == token.EQL || op == token.LSS || op == token.LEQ {
+				return true
+			}
+		}
+	}
+	return false
 }
 
 func guardsOf(fn *ssa.Function) []guard { return guardsOfX(fn, false) }
 
 func guardsOfX(fn *ssa.Function, derived bool) []guard {
+	raw := guardsOfRaw(fn, derived)
+	if os.Getenv("XZV_DEBUG_GUARDS") == fn.Name() {
+		for _, b := range theCtx.GB(fn) {
+			fmt.Fprintf(os.Stderr, "GB %s.%d last=%T\n", b.Parent().Name(), b.Index, b.Instrs[len(b.Instrs)-1])
+		}
+		for _, g := range raw {
+			fmt.Fprintf(os.Stderr, "RAW %s.%d call=%v\n", g.iff.Block().Parent().Name(), g.iff.Block().Index, g.call != nil)
+		}
+	}
+	var gs []guard
+	for _, g := range raw {
+		h := g.iff.Block().Parent()
+		if h != fn && theCtx.IsNew(h) {
+			if sites := groupSites(fn, h); len(sites) > 1 {
+				for _, s := range sites {
+					gc := g
+					gc.site = s
+					gs = append(gs, gc)
+				}
+				continue
+			}
+		}
+		gs = append(gs, g)
+	}
+	return gs
+}
+
+// groupSites: the calls of helper h made by fn or by the new helpers fn uses.
+func groupSites(fn, h *ssa.Function) []*ssa.Call {
+	inRoot := map[*ssa.Function]bool{}
+	for _, g := range theCtx.Group(fn) {
+		inRoot[g] = true
+	}
+	var out []*ssa.Call
+	for _, s := range theCtx.callSites(h) {
+		if call, ok := s.(*ssa.Call); ok && inRoot[s.Parent()] {
+			out = append(out, call)
+		}
+	}
+	return out
+}
+
+func guardsOfRaw(fn *ssa.Function, derived bool) []guard {
 	var gs []guard
 	for _, b := range theCtx.GB(fn) {
 		if len(b.Instrs) == 0 {
@@ -52,6 +156,33 @@ func guardsOfX(fn *ssa.Function, derived bool) []guard {
 			}
 			neg = !neg
 			cond = u.X
+		}
+		// `a && cmp` / `a || cmp` evaluated as a value (switch cases, assigned conditions): a phi of
+		// boolean constants and one comparison. The comparison is a conjunct (all other edges false)
+		// or a disjunct (all other edges true) of the condition.
+		if ph, isPhi := cond.(*ssa.Phi); isPhi && derived && !neg {
+			var cmp *ssa.BinOp
+			nT, nF, other := 0, 0, 0
+			for _, e := range ph.Edges {
+				if bv, isB := constBool(e); isB {
+					if bv {
+						nT++
+					} else {
+						nF++
+					}
+				} else if bo, isBo := e.(*ssa.BinOp); isBo && isCmp(bo.Op) && cmp == nil {
+					cmp = bo
+				} else {
+					other++
+				}
+			}
+			if cmp != nil && other == 0 && (nT == 0) != (nF == 0) {
+				g := guard{iff: iff, x: cmp.X, y: cmp.Y, op: cmp.Op, only: 1}
+				if nF > 0 {
+					g.only = 2
+				}
+				gs = append(gs, g)
+			}
 		}
 		switch x := cond.(type) {
 		case *ssa.BinOp:
@@ -199,12 +330,66 @@ func consequence(c *Ctx, fn *ssa.Function, iff *ssa.If, edgeTrue bool) (ok bool,
 	return ok, why, trace
 }
 
+// consequenceAt: the guard sits in a helper called at several places; the paths of the whole
+// function that take the given edge during the call `site` must all end in a non-nil error or a panic.
+type edgeMark struct{ hit bool }
+
+func (m *edgeMark) Clone() UserState { c := *m; return &c }
+
+func consequenceAt(c *Ctx, fn *ssa.Function, iff *ssa.If, edgeTrue bool, site *ssa.Call) (ok bool, why string, trace []string) {
+	ok = true
+	n := 0
+	w := &Walker{C: c, Fn: fn, MaxSteps: 400000}
+	w.Branch = func(p *PState, x *ssa.If, taken bool) {
+		if x == iff && taken == edgeTrue && len(p.stack) > 0 && p.stack[len(p.stack)-1].call == site {
+			p.U.(*edgeMark).hit = true
+		}
+	}
+	w.Exit = func(p *PState, ins ssa.Instruction) {
+		if !ok || !p.U.(*edgeMark).hit {
+			return
+		}
+		n++
+		if _, isPanic := ins.(*ssa.Panic); isPanic {
+			return
+		}
+		ret := ins.(*ssa.Return)
+		hasErr := false
+		for _, rv := range ret.Results {
+			if isErrType(rv.Type()) {
+				hasErr = true
+				if !p.NonNil(rv) {
+					ok = false
+					why = "a path through the failing edge reaches a return whose error is not provably non-nil"
+					trace = append(w.TraceStrings(p), "return at "+c.InstrPos(ins))
+				}
+			}
+		}
+		if !hasErr {
+			ok = false
+			why = "a path through the failing edge returns without an error result"
+		}
+	}
+	w.Revisit = func(p *PState, b *ssa.BasicBlock) {}
+	w.Run(&edgeMark{})
+	if w.Overflow {
+		return false, "path budget exceeded", nil
+	}
+	if n == 0 {
+		return false, "no path of " + FnName(fn) + " takes the failing edge during the call at " + c.InstrPos(site), nil
+	}
+	return ok, why, trace
+}
+
 type obCtx struct {
-	c    *Ctx
-	r    *Report
-	rule string
-	fn   *ssa.Function
-	gs   []guard
+	// inContext: the obligation holds in a context the caller establishes separately (end of the
+	// block reached); a conjunct `context && A < B` then counts on the true edge
+	inContext bool
+	c         *Ctx
+	r         *Report
+	rule      string
+	fn        *ssa.Function
+	gs        []guard
 }
 
 func newOb(c *Ctx, r *Report, rule string, fn *ssa.Function) *obCtx {
@@ -231,6 +416,13 @@ func (o *obCtx) rel(id string, a, b role, badOp token.Token, desc string) *guard
 			continue
 		}
 		op := g.op
+		if g.site != nil {
+			o.c.bindParam = nil
+			o.c.bindCall(g.site.Call.StaticCallee(), g.site)
+		}
+		if os.Getenv("XZV_DEBUG_OB") == id {
+			fmt.Fprintf(os.Stderr, "OB %s guard %s %s %s at %s site=%v: a(x)=%v b(y)=%v a(y)=%v b(x)=%v only=%d\n", id, g.x.Name(), g.op, g.y.Name(), o.c.InstrPos(g.iff), g.site != nil, a(g.x), b(g.y), a(g.y), b(g.x), g.only)
+		}
 		switch {
 		case a(g.x) && b(g.y):
 		case a(g.y) && b(g.x):
@@ -248,11 +440,19 @@ func (o *obCtx) rel(id string, a, b role, badOp token.Token, desc string) *guard
 			weak = append(weak, fmt.Sprintf("%s at %s", op, o.c.InstrPos(g.iff)))
 			continue
 		}
-		if (g.only == 1 && !edgeTrue) || (g.only == 2 && edgeTrue) {
+		if (g.only == 1 && !edgeTrue) || (g.only == 2 && edgeTrue && !o.inContext) {
 			continue // a part of a helper's condition says nothing about this edge
 		}
 		// g.op already accounts for a NOT around the condition: "raw condition true" <=> x g.op y
-		ok, why, trace := consequence(o.c, o.fn, g.iff, edgeTrue)
+		var ok bool
+		var why string
+		var trace []string
+		if g.site != nil {
+			ok, why, trace = consequenceAt(o.c, o.fn, g.iff, edgeTrue, g.site)
+		} else {
+			ok, why, trace = consequence(o.c, o.fn, g.iff, edgeTrue)
+		}
+		g.badTrue = edgeTrue
 		if !ok {
 			o.r.Fail(o.rule, o.key(id), o.c.InstrPos(g.iff), desc+": the check is present but "+why, trace...)
 			return g
